@@ -181,11 +181,11 @@ def cases(ctx):
     i = 0
     for lo in range(0, 8192, 64):
         if ctx.mine(i):
-            yield "alt13", {"lo": lo, "hi": lo + 64, "fill": 3 if quick else 24}
+            yield "alt13", {"lo": lo, "hi": lo + 64, "fill": 10 if quick else 24}
         i += 1
     tcs_all = list(range(9, 19)) + [20, 21, 22]
     for lo in range(0, 4096, 64):
-        for rep in range(1 if quick else 6):
+        for rep in range(3 if quick else 6):
             if ctx.mine(i):
                 yield "alt12", {"lo": lo, "hi": lo + 64, "tcs": tcs_all + [5 + (lo // 64 + rep) % 4]}
             i += 1
